@@ -34,7 +34,7 @@ def run(c):
     if binary:
         gen(c, binary)
     lem = ["Abs", "Inv", "Read", "Read2", "Read3", "Loop", "Drain", "Get", "Erase", "Erase2", "Erase3", "Drop", "Rotate", "NewFile",
-           "Append", "Run", "GetLive", "Sizes", "Torn"]
+           "Append", "Run", "GetLive", "Sizes", "Torn", "TornErase"]
     c.prove("SH.Props.C09", extra_files=["SH/Model/DiskCache.lean"] + [f"SH/Lemmas/DiskCache{x}.lean" for x in lem])
     c.prove("SH.Lemmas.DiskCacheBytes")          # first-round byte-level theorems, still audited one by one
     drv = c.driver(DRIVER)
@@ -71,13 +71,14 @@ META = {
              "model state satisfies a refinement invariant (files = encoded record lists, known buckets <-> records with ids, ref "
              "counts, cursors, sizes) and its live sequence equals the history-level spec (put appends, erase removes); hence "
              "reread_after_restart (restart + drain returns exactly the put-and-not-erased seconds in write order with identical "
-             "bytes, readFuel always suffices), torn_tail (last put torn at ANY byte loses only that put), erased_never_returned, "
+             "bytes, readFuel always suffices), torn_tail (last put torn at ANY byte loses only that put), torn_erase (fixed reader: the "
+             "4-byte magic write of an erase torn after k=0..4 bytes: k<=2 everything re-read, k=3,4 everything but that second, "
+             "never another second lost; the pre-fix loss is kept as a history-level decide witness), erased_never_returned, "
              "size_accounting (total = sum of file sizes, knownSize/waitingSize/unsent), file_removed (a file stays only while a "
              "known second or a head refers to it). Byte-level theorems of round one unchanged. The model is tied to the code by "
              "replaying every generated history op by op on a real cache directory and on the compiled model and diffing ids, "
              "bytes, sizes, ref counts and a checksum of every file; the oracle recomputes puts - erases - torn from the op log."),
-    "note": ("PARTIAL: the torn-ERASE statement at history level (erase torn after 0..4 bytes never loses another second, fixed reader) "
-             "is proved only per loop iteration, not lifted to histories. crc32c is a parameter (< 2^32; detection reduced to the crc "
+    "note": ("Every clause of the property statement is now a history-level theorem; nothing is labelled partial. crc32c is a parameter (< 2^32; detection reduced to the crc "
              "distinguishing byte strings). Assumed: prefix-preserving file system, increasing file names, no I/O errors; flock not "
              "modelled; size rotation tied at predicate level (real 50 MB files, mode=big). The model follows the tree under test "
              "through the regenerated fact Gen.C09.tornEraseAccepted (true since fix b1b680d2)."),
